@@ -1,26 +1,26 @@
----- MODULE MC_C10_thorough_C_two_rounds ----
+---- MODULE MC_C10_thorough_S_shape_sweep ----
 EXTENDS C10
 MC_DomH1 == {3}
-MC_DomH2 == {3}
+MC_DomH2 == {5}
 MC_DomH3 == {4}
 MC_DomH4 == {7}
 MC_DomH5 == {9}
 MC_DomHDKG == {4}
 MC_DomHR == {1}
 MC_DomHID == {1}
-MC_Shapes == {<<4,3>>}
-MC_IdSets == {{1,2,3,4}, {2,5,7,10}}
+MC_Shapes == {sh \in (2..10) \X (2..10) : sh[2] <= sh[1]}
+MC_IdSets == {1..n : n \in 2..10}
 MC_KeyChoices == {7}
 MC_CoeffChoices == {3}
 MC_Procs == {"dealer","dkg"}
-MC_Scenarios == {"ok","onelen"}
+MC_Scenarios == {"ok"}
 MC_RCoeffChoices == {2}
-MC_Rounds == 2
-MC_MaxExtra == 1
+MC_Rounds == 1
+MC_MaxExtra == 0
 MC_RandChoices == {1}
 MC_Msg == <<104,105>>
 MC_KChoices == {2}
-MC_Sweep == FALSE
+MC_Sweep == TRUE
 MC_EMIT == TRUE
 
 ====
